@@ -196,7 +196,8 @@ def dropped_observations(case, out):
     for k, (c, r) in enumerate(zip(case["script"], out.get("out", []))):
         if c[0] in ("move", "angles"):
             skipped += 1          # moves are not observations; corner angles travel in c_ang
-        elif stale[k] or (c[0] == "vnormals" and c[1] not in ("uniform", "area", "angle")):
+        elif stale[k] or (c[0] == "vnormals" and c[1] not in ("uniform", "area", "angle")) \
+                or (c[0] in ("cot", "cw", "defects", "circum") and case.get("F") and any(len(f) != 3 for f in case["F"])):
             skipped += 1          # stale-cache reads; calls that must be (and are checked to be) rejected
         elif obs_term(c, r) is None:
             dropped += 1          # an error result or a non-finite number: only the oracle sees it
@@ -346,6 +347,8 @@ def expected(T, edges, call):
     """textbook value of one call (floats / lists), or ('raises',) / None when the textbook does not fix it"""
     nm = call[0]
     nv = len(T.V)
+    if nm in ("cot", "cw", "defects", "circum") and any(len(f) != 3 for f in T.F):
+        return ("raises",)      # documented: triangulated meshes only
     if nm == "edge_length":
         return [T.length(a, b) for a, b in edges]
     if nm == "edge_middle":
@@ -467,6 +470,10 @@ def compare(exp, got):
         return None
     if isinstance(exp, int) and not isinstance(exp, bool):
         return None if got == exp else "returned %r, definition gives %r" % (got, exp)
+    if isinstance(exp, list) and exp and all(isinstance(x, float) for x in exp) and isinstance(got, list) and len(got) == len(exp) == 3 \
+            and finite(got) and all(isinstance(x, float) for x in got):
+        # a single 3-vector (barycenter): tolerance relative to its size
+        return None if closev(got, exp, scale=max([1.0] + [abs(x) for x in exp])) else "returned %r, definition gives %r" % (got, exp)
     if isinstance(exp, float):
         return None if (isinstance(got, float) and math.isfinite(got) and close(got, exp)) else "returned %r, definition gives %r" % (got, exp)
     if not isinstance(got, list) or len(got) != len(exp):
@@ -475,7 +482,7 @@ def compare(exp, got):
         if e is None:
             continue
         if isinstance(e, list):
-            if not (finite(g) and closev(g, e)):
+            if not (finite(g) and closev(g, e, scale=max([1.0] + [abs(x) for x in e]))):
                 return "element %d: returned %r, definition gives %r" % (i, g, e)
         elif isinstance(e, int) and not isinstance(e, float):
             if g != e:
@@ -539,6 +546,22 @@ def oracle_case(case, out):
             c = call[2][0]
             if not all(close(g, c) for g in got):
                 bad.append((k, "%s%s of the constant %r returned %r" % (call[0], _opts(call), c, got[:6])))
+    # side effects of every call: it must not move the vertices, a non-persistent call must not leave attributes on the
+    # mesh, a persistent one must leave its attribute (under the requested name) and only the documented companions
+    for k, call, res, T in items:
+        if call[0] == "move" or "new" not in res:
+            continue
+        if res.get("vmoved"):
+            bad.append((k, "%s%s changed the coordinates of the mesh's vertices" % (call[0], _opts(call))))
+        if "err" in res:
+            continue
+        allowed, required = attr_effects(call)
+        extra = [a for a in res["new"] if a not in allowed and not a.split(".")[1].startswith("c07_")]
+        if extra:
+            bad.append((k, "%s%s left attribute(s) %s on the mesh" % (call[0], _opts(call), extra)))
+        missing = [a for a in required if a not in res.get("has", [])]
+        if missing:
+            bad.append((k, "%s%s did not store %s on the mesh" % (call[0], _opts(call), missing)))
     # idempotence: an identical call repeated on the same, unmoved mesh object returns what the first call returned
     first = {}
     for k, call, res, T in items:
@@ -564,6 +587,33 @@ def oracle_case(case, out):
                 bad.append((k, "%s%s: repeated on the same unmoved mesh, call %d returned %r but call %d had returned %r"
                             % (call[0], _opts(call), k, str(res["ok"])[:120], k0, str(r0["ok"])[:120])))
     return bad
+
+
+ATTR_OF = {"edge_length": "edges.length", "edge_middle": "edges.middle", "face_area": "faces.area", "face_normals": "faces.normals",
+           "face_bary": "faces.barycenter", "circum": "faces.circumcenter", "angles": "face_corners.angles", "cot": "face_corners.cotan",
+           "cw": "edges.cotan_weight", "degree": "vertices.degree", "defects": "vertices.angleDefect", "vnormals": "vertices.normals",
+           "vnormals_c": "vertices.normals", "cell_volume": "cells.volume", "cell_bary": "cells.barycenter"}
+INNER = {"cw": ["face_corners.cotan"], "defects": ["face_corners.angles"], "vnormals": ["faces.normals"]}
+
+
+def attr_effects(call):
+    """(attributes the call may add to the mesh, attributes that must be on the mesh afterwards)"""
+    nm = call[0]
+    allowed = {"vertices.border"}          # the lazily computed border flag of the mesh itself
+    required = []
+    if nm == "mean_area":
+        allowed.add("faces.area")           # mean_face_area computes face_area(mesh) persistently when it finds none
+    if nm == "mean_vol":
+        allowed.add("cells.volume")
+    if nm in ATTR_OF and len(call) >= 3:
+        p = call[-2]
+        if p:
+            cont, dflt = ATTR_OF[nm].split(".")
+            own = "%s.%s" % (cont, p if isinstance(p, str) else dflt)
+            allowed.add(own)
+            required.append(own)
+            allowed.update(INNER.get(nm, []))
+    return allowed, required
 
 
 def _opts(call):
@@ -661,6 +711,41 @@ def oracle_renumbering(base, bout, var, vout):
     return bad
 
 
+def oracle_reverse(base, bout, var, vout):
+    """every face listed in the opposite rotation sense: scalar quantities unchanged, normals negated"""
+    bad = []
+    skew_faces = {fi for fi, f in enumerate(base["F"]) if not G.is_planar([[Fr(x) for x in base["V"][u]] for u in f])}
+    skew_vertices = {u for fi in skew_faces for u in base["F"][fi]}
+    for k, (call, rb, rv) in enumerate(zip(base["script"], bout["out"], vout["out"])):
+        if "ok" not in rb or "ok" not in rv or not finite(rb["ok"]) or not finite(rv["ok"]):
+            continue
+        nm = call[0]
+        b, v = rb["ok"], rv["ok"]
+
+        def same(x, y, sgn=1.0):
+            if isinstance(x, list):
+                return len(x) == len(y) and all(same(p, q, sgn) for p, q in zip(x, y))
+            return close(y, sgn * x)
+        ok = True
+        if nm == "mean_edge" and call[1] is not None:
+            continue          # the first n edges are other edges once the edge list is completed in another order
+        if nm in ("face_area", "face_bary", "circum", "total_area", "mean_area", "degree", "euler", "bary", "defects", "mean_edge",
+                  "v2f", "f2v", "c2v", "c2f", "vnormals_c"):
+            ok = (b == v) if nm in ("degree", "euler") else same(b, v, -1.0 if nm == "vnormals_c" else 1.0)
+        elif nm in ("face_normals", "vnormals"):
+            badi = [i for i in range(len(b)) if not same(b[i], v[i], -1.0)]
+            ok = not badi
+            if badi and all((i in skew_faces) if nm == "face_normals" else (i in skew_vertices) for i in badi):
+                bad.append((k, "%s%s [skew quad rotated]: listed in the opposite rotation sense, the normal of a skew quad is not the negated one" % (nm, _opts(call))))
+                continue
+        elif nm in ("edge_length", "cw"):
+            be = {tuple(sorted(e)): x for e, x in zip(bout["edges"], b)}
+            ok = all(tuple(sorted(e)) in be and same(be[tuple(sorted(e))], x) for e, x in zip(vout["edges"], v))
+        if not ok:
+            bad.append((k, "%s%s: listing every face in the opposite rotation sense should keep scalar quantities and negate normals" % (nm, _opts(call))))
+    return bad
+
+
 # ====================================================================== families of cases
 def floats_of(Vx):
     return [[float(x) for x in p] for p in Vx]
@@ -712,8 +797,28 @@ def gen_family(rng, fam_id, tier):
     base = {"V": floats_of(Vx), "F": F, "C": C, "script": script, "meta": {"kind": kind, "family": fam_id, "variant": "base"}}
     fam = [base]
     nvar = 2 if tier == "quick" else 3
-    kinds = rng.sample(["translate", "signedperm", "similarity", "rotation", "scale", "renumber", "renumber"], nvar)
+    kinds = rng.sample(["translate", "signedperm", "similarity", "rotation", "scale", "renumber", "renumber"] + (["reverse"] if F else []), nvar)
     for kd in kinds:
+        if kd == "reverse":
+            # the same surface seen from the other side: every face's vertex list reversed (clockwise input)
+            F2 = [list(reversed(f)) for f in F]
+            first = [0]
+            for f in F:
+                first.append(first[-1] + len(f))
+            sc = []
+            for c in script:
+                if c[0] in ("c2v", "c2f"):
+                    vals = []
+                    for fi, f in enumerate(F):
+                        vals += list(reversed(c[2][first[fi]:first[fi] + len(f)]))
+                    sc.append([c[0], c[1], vals] + list(c[3:]))
+                elif c[0] == "vnormals_c":
+                    sc.append([c[0], c[1], [[-x for x in v] for v in c[2]]] + list(c[3:]))
+                else:
+                    sc.append(c)
+            fam.append({"V": floats_of(V), "F": F2, "C": None, "script": sc,
+                        "meta": {"kind": kind, "family": fam_id, "variant": "reverse"}})
+            continue
         if kd == "renumber":
             V2, F2, C2, ren = G.gen_renumbering(rng, V, F, C)
             sc = [map_values_renumber(c, ren, F) for c in script] if F else script
@@ -925,7 +1030,7 @@ def shrink_case(case, k, fails_many, deadline):
 # ====================================================================== the check
 def run(ctx):
     quick = ctx.tier == "quick"
-    n_fam = 90 if quick else 900
+    n_fam = 80 if quick else 700
     ctx.rule = ("families = one integer-coordinate manifold mesh (triangle 62% / quad 20% / planar-polygon 18% surfaces with "
                 "borders, holes, genus 0-1; tetrahedral volumes 12%) + 2-3 variants (integer translation, signed-permutation "
                 "rotation, exact integer similarity N*R from a Pythagorean quaternion, rational rotation rounded to binary64, "
@@ -953,7 +1058,7 @@ def run(ctx):
         fam = gen_family(ctx.rng, fid, ctx.tier)
         fam_index.append((len(cases), len(fam)))
         cases += fam
-    n_nc = 12 if quick else 150
+    n_nc = 12 if quick else 100
     for nid in range(n_nc):
         V, F = G.gen_nonconvex(ctx.rng)
         pd_ = lambda: [ctx.rng.random() < 0.5, ctx.rng.random() < 0.5]  # noqa: E731
@@ -968,12 +1073,12 @@ def run(ctx):
                       "meta": {"kind": "nonconvex", "family": "nonconvex-%d" % nid, "variant": "renumber", "renumber": ren}}]
         fam_index.append((len(cases), len(fam)))
         cases += fam
-    n_rep = 30 if quick else 300
+    n_rep = 30 if quick else 250
     for rid in range(n_rep):
         kind, V, F, C, script = G.gen_repeat(ctx.rng)
         cases.append({"V": [[float(x) for x in p] for p in V], "F": F, "C": C, "script": script,
                       "meta": {"kind": kind, "family": "repeat-%d" % rid, "variant": "repeat"}})
-    n_scen = 36 if quick else 400
+    n_scen = 36 if quick else 300
     for sid in range(n_scen):
         kind, V, F, C, script = G.gen_scenario(ctx.rng)
         cases.append({"V": [[float(x) for x in p] for p in V], "F": F, "C": C, "script": script,
@@ -989,6 +1094,13 @@ def run(ctx):
         ctx.count("variant=" + m["variant"])
         nel = len(c["C"]) if c.get("C") else len(c["F"])
         ctx.count("elements<=%d" % (1 if nel <= 1 else 8 if nel <= 8 else 40 if nel <= 40 else 100))
+        if c.get("F") and not c.get("C") and "edges" in o and o["edges"]:
+            he = {(f[i], f[(i + 1) % len(f)]) for f in c["F"] for i in range(len(f))}
+            for a_, b_ in o["edges"]:
+                if (a_, b_) in he and (b_, a_) not in he:
+                    ctx.count("border edge stored (A,B) with its face on the (A,B) side")
+                elif (b_, a_) in he and (a_, b_) not in he:
+                    ctx.count("border edge stored (A,B) with its face on the (B,A) side")
         for call in c["script"]:
             ctx.count("call " + call[0] + ("/" + str(call[1]) if call[0] in ("f2v", "c2v", "c2f", "vnormals", "defects") else ""))
             if call[0] in ("v2f", "f2v", "sv2c", "sf2c", "c2v", "c2f") and call[5]:
@@ -1014,7 +1126,9 @@ def run(ctx):
             if "build_error" in outs[j]:
                 continue
             v = cases[j]
-            if v["meta"]["variant"] == "renumber":
+            if v["meta"]["variant"] == "reverse":
+                rel = oracle_reverse(base, bout, v, outs[j])
+            elif v["meta"]["variant"] == "renumber":
                 rel = oracle_renumbering(base, bout, v, outs[j])
             else:
                 vv = dict(v, meta=dict(v["meta"], transform=_tr_of(v["meta"])))
